@@ -133,7 +133,7 @@ def navigations(w, all_paths):
 
 
 MORE = [(f,) for f in FLAGS] + [tuple(FLAGS)]
-STATE_CAP = 5000
+STATE_CAP = 1500
 
 
 def _owner(name):
@@ -405,7 +405,7 @@ def start_tasks(seed, drivers=("h5", "ih5")):
 def run(tier, seed):
     tasks = start_tasks(seed, ("h5", "ih5") if tier == "quick" else ("h5", "ih5", "mf"))
     violations = []
-    states = trans = checks = 0
+    states = trans = checks = max_states = 0
     with parallel.make_pool("mc.props.c15") as pool:
         res = pool.map("explore", tasks, chunk=2, item_deadline=300)
     for t, r in zip(tasks, res):
@@ -414,6 +414,7 @@ def run(tier, seed):
             continue
         v, s, tr, ck = r
         violations += v
+        max_states = max(max_states, s)
         states += s
         trans += tr
         checks += ck
@@ -422,6 +423,8 @@ def run(tier, seed):
         "transitions": trans,
         "traces_validated_against_impl": checks,
         "start_states": len(tasks),
+        "max_states_from_one_start": max_states,
+        "state_cap_per_start": STATE_CAP,
         "invariant_checks": checks,
         "exhaustive": True,
         "samples": [tasks[len(tasks) // 3], tasks[-1]],
